@@ -250,6 +250,11 @@ def items(tier, rng):
                     "max_paths": 400, "spread": rng.randrange(1 << 30)})
         out.append({"name": "bp_custom_limit", "harness": "h_bp_custom", "split": 2,
                     "params": {"pool": pool, "initial": init, "D": 2, "limits": [{"max_iter": 0}, {"max_nodes": 1}, {"max_iter": 1, "max_nodes": 2}][k % 3]}})
+    # a coarse gap_tol (0.1 / 0.25) on instances with a piece so small that 1/gap_tol copies fit in a roll: OPTIMAL still has to be the minimum
+    for (W, sizes) in [(14, [1, 10]), (12, [1, 7]), (10, [1, 3, 6])]:
+        vecs = list(itertools.product(range(4), repeat=len(sizes)))
+        for k, vec in enumerate(vecs if len(vecs) <= 16 else rng.sample(vecs, 16)):
+            out.append({"name": "bp_gap", "harness": "h_bp", "params": {"W": W, "sizes": sizes, "D": 3, "fixed": list(vec), "limits": {"gap_tol": (0.1, 0.25)[k % 2]}}})
     for pool, init in EXTRA_POOLS:
         out.append({"name": "cg_custom", "harness": "h_cg_custom", "params": {"pool": pool, "initial": init, "D": D}, "max_paths": 600, "spread": rng.randrange(1 << 30)})
     for it in out:
